@@ -57,6 +57,37 @@ func c13Judge(r *h.Result, stream, op, ans, realText string, c c13mCase, verdict
 	return fields
 }
 
+// c13Tight collects real statements to be judged by confinedDeep with exactly the window/slack a theorem states
+type c13Tight struct {
+	ops   []string
+	keys  []string
+	what  []string
+	cases []any
+}
+
+func (t *c13Tight) add(key string, from, to, slack int64, need bool, tp int, sel sql.ISelect, what string, c any) {
+	t.ops = append(t.ops, fmt.Sprintf("c13confined %d %d %d %d %d %s", from, to, slack, b2i(need), tp, hx(sqldump.Dump(sel))))
+	t.keys = append(t.keys, key)
+	t.what = append(t.what, what)
+	t.cases = append(t.cases, c)
+}
+
+func (t *c13Tight) judge(r *h.Result) error {
+	ans, err := h.Model(t.ops)
+	if err != nil {
+		return err
+	}
+	for i, a := range ans {
+		r.Count("tight:" + t.keys[i])
+		if strings.HasPrefix(a, "true") {
+			continue
+		}
+		r.Violate("C13/unconfined/"+t.keys[i], "the real statement for "+t.what[i]+" has a scan outside the window the theorem states: "+a,
+			map[string]any{"stream": "model", "case": t.cases[i], "verdict": a})
+	}
+	return nil
+}
+
 func c13Window(rng *h.Rng, from, to int64) (int64, int64) {
 	if rng.Chance(25) {
 		day := (from / 86400e9) * 86400e9
@@ -179,7 +210,12 @@ func c13ModelMetric(r *h.Result, rng *h.Rng, n int) error {
 				bad = append(bad, strings.TrimSuffix(f, "=false"))
 			}
 		}
-		r.Violate("C13/unconfined/logql-metric-tight/"+strings.Join(bad, "+"),
+		scan := "samples"
+		if cs[i].short {
+			scan = "metrics_15s"
+		}
+		_ = bad
+		r.Violate("C13/unconfined/logql-metric-tight/"+scan,
 			fmt.Sprintf("metric statement for %s window [%d,%d) has a scan outside the window widened by the slack the theorem allows: %s", cs[i].c.Query, cs[i].from, cs[i].to, a),
 			map[string]any{"stream": "model-metric", "query": cs[i].c.Query, "ctx": cs[i].c.Ctx, "verdict": a, "sql": cs[i].text})
 	}
@@ -191,8 +227,10 @@ func c13ModelTrace(r *h.Result, rng *h.Rng, n int) error {
 	r.Stream("model-traceql: clickhouse_transpiler.Plan / PlanTagsV2 / PlanValuesV2 → Process → String vs TraceQL.plan / planTags / planValues (byte-equal, errors as ERR) + confinedDeep of the model's plan + hypotheses of all_scans_confined_traceql* under lokiCfg")
 	var ops, impl []string
 	var cases []c13mCase
+	var tight c13Tight
 	run := func(kind, query string, c tqctx, key string) {
 		var text string
+		var real sql.ISelect
 		var script *traceql_parser.TraceQLScript
 		var err error
 		func() {
@@ -225,6 +263,7 @@ func c13ModelTrace(r *h.Result, rng *h.Rng, n int) error {
 				err = e
 				return
 			}
+			real = sel
 			text, err = sel.String(sql.DefaultCtx())
 		}()
 		if script == nil {
@@ -256,6 +295,7 @@ func c13ModelTrace(r *h.Result, rng *h.Rng, n int) error {
 		} else {
 			r.Count("model-traceql:" + kind + "-ok")
 			r.Count(fmt.Sprintf("model-traceql:selectors=%d", countSelectors(script)))
+			tight.add("traceql-"+kind, c.From, c.To, 0, false, 0, real, query, map[string]any{"kind": kind, "query": query, "ctx": c, "sql": text})
 		}
 		impl = append(impl, text)
 		cases = append(cases, c13mCase{"model-traceql", kind, query, c, text, e})
@@ -288,7 +328,7 @@ func c13ModelTrace(r *h.Result, rng *h.Rng, n int) error {
 		}
 		c13Judge(r, "model-traceql", ops[i], a, impl[i], cases[i], 1)
 	}
-	return nil
+	return tight.judge(r)
 }
 
 // ---- model-series: the Loki series and label-values planners
@@ -296,6 +336,7 @@ func c13ModelSeries(r *h.Result, rng *h.Rng, n int) error {
 	r.Stream("model-series: clickhouse_planner.NewSeriesPlanner / NewValuesPlanner over PlanFingerprints(script) → Process → String vs LogQL.planSeries / planValues (byte-equal) + confined of the model's plan + hypotheses under lokiCfg")
 	var ops, impl []string
 	var cases []c13mCase
+	var tight c13Tight
 	for i := 0; i < n; i++ {
 		query := genLogQuery(rng, 3, 3)
 		script, err := logql_parser.Parse(query)
@@ -309,12 +350,20 @@ func c13ModelSeries(r *h.Result, rng *h.Rng, n int) error {
 		}
 		c := genCtx(rng)
 		c.From, c.To = c13Window(rng, c.From, c.To)
+		tp := int(c.Type)
+		if tp == 0 {
+			tp = 1
+		}
 		text := func(p shared.SQLRequestPlanner) (string, error) {
 			sel, err := p.Process(c.planner())
 			if err != nil {
 				return "", err
 			}
-			return sel.String(sql.DefaultCtx())
+			t, err := sel.String(sql.DefaultCtx())
+			if err == nil {
+				tight.add("logql-series-values", c.From, c.To, 0, true, tp, sel, query, map[string]any{"query": query, "ctx": c, "sql": t})
+			}
+			return t, err
 		}
 		fpP, err := clickhouse_planner.PlanFingerprints(script)
 		if err != nil {
@@ -356,7 +405,7 @@ func c13ModelSeries(r *h.Result, rng *h.Rng, n int) error {
 	for i, a := range ans {
 		c13Judge(r, "model-series", ops[i], a, impl[i], cases[i], 1)
 	}
-	return nil
+	return tight.judge(r)
 }
 
 // ---- model-prom: the two statements of the Prometheus remote-read path
@@ -368,6 +417,7 @@ func c13ModelProm(r *h.Result, rng *h.Rng, n int) error {
 	r.Stream("model-prom: transpiler.TranspileLabelMatchers / GetLabelMatchersDownsampleRequest → String vs Prom.transpileRaw / transpileDown (byte-equal; every hint function, step 0/</=/> range) + confined of the model's plan + hypotheses under lokiCfg")
 	var ops, impl []string
 	var cases []c13mCase
+	var tight c13Tight
 	mt := map[labels.MatchType]string{labels.MatchEqual: "eq", labels.MatchNotEqual: "neq", labels.MatchRegexp: "re", labels.MatchNotRegexp: "nre"}
 	for i := 0; i < n; i++ {
 		c := genCtx(rng)
@@ -410,6 +460,7 @@ func c13ModelProm(r *h.Result, rng *h.Rng, n int) error {
 				cases = append(cases, c13mCase{"model-prom", "raw", fmt.Sprintf("hints=%+v matchers=%v", *hints, ms), c, t, ""})
 				r.Case(fmt.Sprintf("model-prom:raw:%+v:%v:%v", *hints, ms, c), true)
 				r.Count("model-prom:raw:fn=" + hints.Func)
+				tight.add("prom-raw", c.From, c.To, 0, true, 2, res.Query, fmt.Sprintf("hints=%+v", *hints), map[string]any{"hints": *hints, "ctx": c, "sql": t})
 			}
 		} else {
 			r.Count("model-prom:raw-error")
@@ -421,6 +472,7 @@ func c13ModelProm(r *h.Result, rng *h.Rng, n int) error {
 				cases = append(cases, c13mCase{"model-prom", "downsample", fmt.Sprintf("hints=%+v matchers=%v", *hints, ms), c, t, ""})
 				r.Case(fmt.Sprintf("model-prom:down:%+v:%v:%v", *hints, ms, c), true)
 				r.Count("model-prom:down")
+				tight.add("prom-downsample", c.From, c.To, 0, true, 2, sel, fmt.Sprintf("hints=%+v", *hints), map[string]any{"hints": *hints, "ctx": c, "sql": t})
 			}
 		} else {
 			r.Count("model-prom:down-error")
@@ -433,7 +485,7 @@ func c13ModelProm(r *h.Result, rng *h.Rng, n int) error {
 	for i, a := range ans {
 		c13Judge(r, "model-prom", ops[i], a, impl[i], cases[i], 1)
 	}
-	return nil
+	return tight.judge(r)
 }
 
 // ---- model-prof: the Pyroscope selector query with the dates rendered from the context
@@ -444,6 +496,7 @@ func c13ModelProf(r *h.Result, rng *h.Rng, n int) error {
 	defer func() { time.Local = saved }()
 	var ops, impl []string
 	var cases []any
+	var tight c13Tight
 	for i := 0; i < n; i++ {
 		z := zones[i%3]
 		time.Local = z
@@ -480,8 +533,12 @@ func c13ModelProf(r *h.Result, rng *h.Rng, n int) error {
 		cases = append(cases, map[string]any{"stream": "model-prof", "from": from, "to": to, "zone": z.String(), "selectors": parts, "sql": text})
 		r.Case(fmt.Sprintf("model-prof:%d:%d:%v:%s", from, to, parts, z), true)
 		r.Count("model-prof:zone:" + z.String())
+		tight.add("prof-selector", from, to, 0, false, 0, q, fmt.Sprint(parts), map[string]any{"from": from, "to": to, "zone": z.String(), "selectors": parts, "sql": text})
 	}
-	return r.Compare("model-prof", ops, impl, cases)
+	if err := r.Compare("model-prof", ops, impl, cases); err != nil {
+		return err
+	}
+	return tight.judge(r)
 }
 
 func c13Models(r *h.Result, rng *h.Rng, tier string) error {
